@@ -419,6 +419,42 @@ pub fn build<G: K>(defs: &Defs, env: &Env, e: &Sexp) -> G {
                     let b = build_op_body::<G>(defs, env, args);
                     with_slices(&b, |s| Conde::<U, E, G>::from_conjunctions(s).cast_into())
                 }
+                "mapsum" => {
+                    // the public labeling combinator map_sum, nested: (mapsum (x v1 v2 ..) (y w1 ..) ..): x is one of the v's, then y
+                    // one of the w's, ..; every level is a goal whose solve returns the (mature) map_sum stream of the next level
+                    fn ms(levels: Rc<Vec<(T, Vec<T>)>>, i: usize, solver: &Solver<U, E>, state: State<U, E>) -> Stream<U, E> {
+                        if i >= levels.len() {
+                            return Stream::unit(Box::new(state));
+                        }
+                        let (x, vals) = levels[i].clone();
+                        let lv = levels.clone();
+                        proto_vulcan::state::map_sum::map_sum(
+                            solver,
+                            state,
+                            move |v: T| {
+                                let (x, lv) = (x.clone(), lv.clone());
+                                FnGoal::new::<Goal<U, E>>(Box::new(move |solver2: &Solver<U, E>, st2: State<U, E>| match st2.unify(&x, &v) {
+                                    Ok(s) => ms(lv.clone(), i + 1, solver2, s),
+                                    Err(_) => Stream::empty(),
+                                }))
+                                .cast_into()
+                            },
+                            vals.into_iter(),
+                        )
+                    }
+                    let levels: Vec<(T, Vec<T>)> = args
+                        .iter()
+                        .map(|l| {
+                            let l = l.list();
+                            (build_term(env, &l[0]), l[1..].iter().map(|e| build_term(env, e)).collect())
+                        })
+                        .collect();
+                    let levels = Rc::new(levels);
+                    G::from_bfs(FnGoal::new::<Goal<U, E>>(Box::new(move |solver: &Solver<U, E>, state: State<U, E>| {
+                        ms(levels.clone(), 0, solver, state)
+                    }))
+                    .cast_into())
+                }
                 "reuse" => {
                     // ONE goal value used n times in a conjunction (goal values are cheap clones of one another): (reuse n g)
                     let n = args[0].int() as usize;
